@@ -218,6 +218,12 @@ pub fn add_roots(m: &mut walrus::Module, seed: u64) -> String {
         m.tables.get_mut(t).elem_segments.insert(id);
         what.push("active-elem");
     }
+    if rng.chance(1, 2) {
+        // an imported table created after the local ones (and exported, so that it stays)
+        let (t, _) = m.add_import_table("wv.roots", "t", false, 1, None, walrus::RefType::Funcref);
+        m.exports.add("wv_root_t", t);
+        what.push("import-table");
+    }
     let exported: std::collections::HashSet<walrus::FunctionId> = m.exports.iter().filter_map(|e| if let ExportItem::Function(f) = e.item { Some(f) } else { None }).collect();
     let unexported: Vec<walrus::FunctionId> = funcs.iter().copied().filter(|f| !exported.contains(f)).collect();
     if !unexported.is_empty() && rng.chance(1, 2) {
@@ -378,6 +384,19 @@ pub fn run(input: &[u8], scn: &str, rec: &mut Rec) {
             match r {
                 Ok(()) => rec.push_n("addfn", 1),
                 Err(pan) => rec.push_s("panic.addfn", &pan),
+            }
+        }
+        if o.has("ghostimp") {
+            // an imported function whose import entry is taken out by hand: it stays in the function arena, unused
+            // and unemitted, and must not count as anything
+            let r = guarded(|| {
+                let ty = p.module.types.add(&[], &[]);
+                let (_, imp) = p.module.add_import_func("wv", "ghost", ty);
+                p.module.imports.delete(imp);
+            });
+            match r {
+                Ok(()) => rec.push_n("ghostimp", 1),
+                Err(pan) => rec.push_s("panic.ghostimp", &pan),
             }
         }
         if o.has("ins") {
